@@ -27,7 +27,7 @@ def main():
         os.environ["TZ"] = HOST_ZONE[prop]; time.tzset()
     if prop != "C06":          # the library's loggers at DEBUG (discarding handler): code that only runs while someone is debugging runs here too; C06 runs both ways
         import logging
-        logging.getLogger("aioswitcher").addHandler(logging.NullHandler()); logging.getLogger("aioswitcher").setLevel(logging.DEBUG)
+        logging.getLogger("aioswitcher").addHandler(lib.FormattingSink()); logging.getLogger("aioswitcher").setLevel(logging.DEBUG)
     P = importlib.import_module("props." + prop.lower())
     trusted = ["Coq 8.16.1 kernel and coqc; vm_compute is used in proofs, native_compute is not",
                "harness/extract_consts.py: the translator that regenerates coq/theories/Gen/Extracted.v (packet templates, enum "
